@@ -233,9 +233,49 @@ COMPOSITE = ['pdu.PresentationContextItemRQ', 'pdu.UserInformationItem', 'pdu.PD
              'pdu.AAssociateRqPDU', 'pdu.AAssociateAcPDU']
 
 
+def class_for_obligation(name):
+    """which class's native bounded search replays an obligation"""
+    import re
+    m = re.search(r'\{(\w+PDU)\}', name)
+    if m:
+        return 'pdu.' + m.group(1)
+    for pat, key in (('AAssociatePDUBase', 'pdu.AAssociateRqPDU'), ('PDataTfPDU', 'pdu.PDataTfPDU'),
+                     ('PresentationContextItemRQ', 'pdu.PresentationContextItemRQ'),
+                     ('UserInformationItem', 'pdu.UserInformationItem'),
+                     ('(SubItem)', 'pdu.UserInformationItem'), ('(TransferSyntax)', 'pdu.PresentationContextItemRQ'),
+                     ('(VarItem)', 'pdu.AAssociateRqPDU'), ('(PDV)', 'pdu.PDataTfPDU'),
+                     ('AReleasePDUBase', 'pdu.AReleaseRqPDU')):
+        if pat in name:
+            return key
+    m = re.match(r'(pdu|userdataitems)\.(\w+)\.', name)
+    if m:
+        return '%s.%s' % (m.group(1), m.group(2))
+    return None
+
+
+def install_replayer(ctx, std):
+    from .. import runner, replay
+
+    def replayer(ctx2, ob, model):
+        key = class_for_obligation(ob.name)
+        if key is None:
+            return None
+        T = runner.TYPES
+        req = {'key': key, 'records': {k: [list(f) for f in r.fields] for k, r in T.records.items()},
+               'families': {k: f.members for k, f in T.families.items()}, 'std': std, 'seed': ctx2.seed,
+               'limit': 600}
+        r = replay.run_native('codec.py', req, timeout=300)
+        r['searched_class'] = key
+        r['note'] = 'bounded native search over structured values of the class (solver models of uninterpreted ' \
+                    'text/sequence sorts are not turned into inputs directly)'
+        return r
+    ctx.replayers['*'] = replayer
+
+
 def run(ctx):
     it = ctx.build()
     setup_codec(ctx, it)
+    install_replayer(ctx, std=False)
     import os
     keys = LEAF + COMPOSITE
     only = os.environ.get('PYVC_ONLY')
